@@ -1100,6 +1100,28 @@ class Engine:
             if gen is not None:
                 out.extend(self._run_for_generator(fi, stmt, s0, depth, gen))
                 continue
+            if isinstance(stmt, ast.For) and not stmt.orelse and self._is_iterator_object(it):
+                # an object of a package class that implements the iterator protocol itself (__iter__ returns self):
+                #     for T in OBJ: BODY   ==   while True:
+                #                                   try: T = OBJ.__next__()
+                #                                   except StopIteration: break
+                #                                   BODY
+                tmp = f"_it_{stmt.lineno}_{stmt.col_offset}"
+                s0.env[tmp] = it
+                nxt_call = ast.Call(func=ast.Attribute(value=ast.Name(id=tmp, ctx=ast.Load()), attr="__next__", ctx=ast.Load()), args=[], keywords=[])
+                tr = ast.Try(body=[ast.Assign(targets=[stmt.target], value=nxt_call)],
+                             handlers=[ast.ExceptHandler(type=ast.Name(id="StopIteration", ctx=ast.Load()), name=None, body=[ast.Break()])],
+                             orelse=[], finalbody=[])
+                loop = ast.While(test=ast.Constant(value=True), body=[tr] + list(stmt.body), orelse=[])
+                for n_ in ast.walk(loop):
+                    if not hasattr(n_, "lineno"):
+                        ast.copy_location(n_, stmt)
+                ast.fix_missing_locations(loop)
+                key = ("iterloop", id(stmt))
+                cache = self.__dict__.setdefault("_synth", {})
+                loop = cache.setdefault(key, loop)  # one node per statement (events are keyed by node identity)
+                out.extend(self._run_body(fi, [loop], s0, depth))
+                continue
             elems = self._iter_elems(it)
             K = len(elems) if elems is not None else self.policy.unroll
             site = self.site(stmt, fi)
@@ -1155,6 +1177,19 @@ class Engine:
                 if not frontier:
                     break
         return out
+
+    def _is_iterator_object(self, it) -> bool:
+        cq = it[1] if it[0] == "new" else None
+        if cq is None:
+            ty = self.typer.type_of(it) if it[0] in ("attr", "param", "var", "call") else None
+            cq = ty[1] if ty and ty[0] == "cls" else None
+        if cq is None or cq not in self.prog.classes:
+            return False
+        nx, itr = self.prog.lookup_method(cq, "__next__"), self.prog.lookup_method(cq, "__iter__")
+        if nx is None or itr is None or nx.is_async:
+            return False
+        body = [b for b in itr.node.body if not (isinstance(b, ast.Expr) and isinstance(b.value, ast.Constant))]
+        return len(body) == 1 and isinstance(body[0], ast.Return) and isinstance(body[0].value, ast.Name) and body[0].value.id == itr.params()[0]
 
     # generators ------------------------------------------------------------------
     def _generator_call(self, it, s: _State):
@@ -1775,6 +1810,9 @@ class Engine:
                     elems.append(x)
             return (tag, tuple(elems))
         if isinstance(node, ast.Dict):
+            if not node.keys and getattr(self.policy, "empty_dict_identity", False):
+                # an empty display that is going to be filled: a new object per evaluation, like dict()
+                return ("call", ("ext", "dict"), (), (), self.site(node, fi, s))
             items = []
             for k, v in zip(node.keys, node.values):
                 items.append((ev(k) if k is not None else ("starred", NONE), ev(v)))
@@ -2584,12 +2622,19 @@ class Engine:
             return False
         if self.is_listener_iface(callee.qual):
             return False
+        if callee.qual in getattr(self.policy, "opaque", ()):
+            return False  # a rule wants to see this call as a call (it analyses the callee on its own)
         if self.transparent(callee, e.func) and depth < 12:
             # a function the rules were not written against (extracted helper): analysed in place
             return True
         return self.policy.inline(callee, depth, e)
 
     def transparent(self, callee: FuncInfo, caller: t.Optional[FuncInfo]) -> bool:
+        if callee.qual in getattr(self.policy, "opaque", ()):
+            return False
+        return self._transparent(callee, caller)
+
+    def _transparent(self, callee: FuncInfo, caller: t.Optional[FuncInfo]) -> bool:
         """an unknown function that serves its caller: a module-level function, or a method of the caller's own class
         (hierarchy).  A new method that is invoked on *another* object is a new interface of that object: it stays a
         call and is analysed on its own like the known ones."""
@@ -2805,7 +2850,7 @@ class Engine:
             return res
         obj = ("new", cq, (), site)
         e.targets = [init]
-        if self.policy.inline_ctors and self._should_inline(init, depth, e):
+        if (self.policy.inline_ctors or (self.policy.transparent_helpers and cq not in baseline_classes())) and self._should_inline(init, depth, e):
             self._inline(init, obj, cq, args, kwargs, e, node, s, fi, depth, ch)
         e.result = obj
         return obj
